@@ -12,11 +12,15 @@ META = {
                   "two-endpoint machine (request/reply frames with sequence numbers, re-entrant serving while waiting, idle serving loop) reaches a quiescent state whose result and "
                   "invocation log are those of the one-process evaluation; EVERY execution that delivers a result delivers that one (at most one peer can move at any time and its "
                   "move is determined), and no execution deadlocks or diverges before the result. The theorem is named _partial because values are naturals in the model: that "
-                  "arguments/results of every shape cross unchanged or as references is C03/C04 plus this check's differential run over real connections. Also outside the "
-                  "model: exceptions have ONE class there and call sites catch everything or nothing; class-selective catching and user-defined exception classes are run "
-                  "differentially only (second harness phase: three exception classes incl. a user-defined subclass, call sites catching all / ValueError / KeyError / nothing, results "
-                  "that are ints, tuples mixing a value with a mutable list and a callable, bare callables, bare lists - the caller uses every part): under the default configuration "
-                  "a user-defined class is not reproduced (C09's gating), which is known finding F46 for this property; with the switches on the runs agree.",
+                  "arguments/results of every shape cross unchanged or as references is C03/C04 plus this check's differential run over real connections. Exceptions carry "
+                  "the ancestry of their class and call sites catch everything, nothing or the classes they name (isinstance on the ancestry); what the connection does to a class is a "
+                  "parameter xw of the machine: for EVERY xw the machine computes the evaluation seen through the connection (c01_machine_is_evaluation_through_connection), which is the "
+                  "one-process evaluation when classes are reproduced (builtin classes; user-defined ones with the switches on). Under the default configuration a user-defined class "
+                  "arrives as a stand-in derived from Exception (C09's gating): selective catching then differs from the local run - theorem "
+                  "c01_selective_catch_refuted_when_class_replaced, known finding F46; the second harness phase (five exception classes incl. two user-defined, one outside Exception; "
+                  "sites catching Exception / ValueError / KeyError / BaseException / nothing; results that are ints, tuples mixing a value with a mutable list and a callable, bare "
+                  "callables, bare lists - the caller uses every part) runs every tree locally, over real connections under both configurations AND through the machine with that "
+                  "configuration's table: a deviation is filed under F46 only if it is exactly the one the machine predicts.",
     "level_note": "Trusted: Coq kernel, pygen (call-path facts), extraction+driver, harness (single-thread pumping of two real Connections; when a connection is re-entered while it "
                   "waits, its frame is dispatched on the waiting stack as its own serve loop would). Multi-threaded callers are C13, timeouts C15. Depth is bounded by the interpreter stack in the real code (each remote hop costs frames): ping-pong depth ~120 works, "
                   "200 raises RecursionError remotely; the theorems speak of the protocol, the harness stays far below that bound.",
@@ -25,7 +29,7 @@ META = {
     "shapes": ["calls.*", "protocol.Connection.sync_request", "protocol.Connection.async_request", "protocol.Connection._handle_call", "protocol.Connection._handle_callattr"],
     "models": ["calltree"],
     "model_files": ["CallTree"],
-    "assumptions": ["value/reference fidelity of arguments and results is carried by C03/C04 and the differential run, not by the call-tree model"],
+    "assumptions": ["value/reference fidelity of arguments and results is carried by C03/C04 and the differential run, not by the call-tree model", "which classes the connection reproduces (the table xw) is C09's subject; here the default table is the harness's reading of it, validated by every generated tree"],
 }
 
 import rpyc
@@ -90,8 +94,35 @@ def gen_tree(r, depth, counter, side=None):
             "payload_seed": r.randrange(10**6), "kw": r.choice([False, True, True, "wide", "wide", "_self"] if r.random() < 0.9 else ["_self"])}
 
 
+# class numbers of the model (model/CallTree.v: an exception carries the ancestry of its class, most derived first)
+MRO = {"ValueError": [2, 1, 0], "KeyError": [4, 3, 1, 0], "NodeError": [5, 2, 1, 0], "GeneratorExit": [6, 0], "Abort": [7, 0]}
+CATCH_SX = {None: [0, []], "all": [0, [1]], "ValueError": [0, [2]], "KeyError": [0, [4]], "base": [0, [0]]}
+# what the connection does to a class the receiver is configured not to rebuild (the default): a stand-in derived from vinegar's
+# GenericException (9), itself an Exception - also for a class that was NOT an Exception
+DEFAULT_TABLE = [[5, [8, 9, 1, 0]], [7, [10, 9, 1, 0]]]
+
+
 def tree_sx(t):
-    return [t["side"] == "B", t["id"], [[tree_sx(k), c] for k, c in t["kids"]], t["raises"]]
+    """phase-1 trees: a node raises ValueError or nothing, a call site catches ValueError or nothing"""
+    return [t["side"] == "B", t["id"], [[tree_sx(k), CATCH_SX["ValueError" if c else None]] for k, c in t["kids"]], MRO["ValueError"] if t["raises"] else []]
+
+
+def tree2_sx(t):
+    return [t["side"] == "B", t["id"], [[tree2_sx(k), CATCH_SX[c]] for k, c in t["kids"]], MRO[t["raises"]] if t["raises"] else []]
+
+
+def outcome2_sx(out):
+    """a phase-2 outcome in the model's terms: [0, number] or [1, raiser, (is ValueError, is KeyError, is Exception, is GeneratorExit)]"""
+    if out[0] == "value":
+        v = out[2]
+        return [0, v if out[1] in ("int", "callable") else v[0]]
+    return [1, out[5][0] if out[5] else None, tuple(bool(x) for x in out[1:5])]
+
+
+def model_outcome2(m):
+    if m[0] == 0:
+        return [0, m[1]]
+    return [1, m[1], (2 in m[2], 4 in m[2], 1 in m[2], 6 in m[2])]
 
 
 def depth_of(t):
@@ -318,8 +349,9 @@ def run_tree2(root, remote, cfg_extra):
                 pass
 
 
-def exception_phase(ctx, n):
+def exception_phase(ctx, n, model=None):
     r = ctx.rng
+    runs = []
     for i in range(n):
         root = gen_tree2(r, r.choice([1, 2, 3, 4] if ctx.quick else [2, 3, 4, 5, 6]), [0], side="A")
         lo = run_tree2(root, False, {})
@@ -328,16 +360,36 @@ def exception_phase(ctx, n):
             cross = any(True for _ in _cross(root))
             ctx.case(("tree2", mode, repr(root)), nontrivial=cross, sample={"mode": mode, "local": repr(lo[0])[:80], "remote": repr(ro[0])[:80], "custom": has_custom(root)})
             ctx.count("exceptions:" + mode + (":custom-class" if has_custom(root) else ":builtin-only"))
-            if ro == lo:
-                continue
-            case = {"tree2": root, "mode": mode}
-            which = "result" if ro[0] != lo[0] else ("invocations-or-catches" if ro[1] != lo[1] else "callee-kept-objects")
-            if mode == "default" and has_custom(root):
-                ctx.violation("custom-exception-class-lost:default-config", case, observed=repr(ro)[:300], expected=repr(lo)[:300],
-                              what="a user-defined exception class raised on one peer is not caught by `except <its base class>` on the other under the default configuration (%s differ)" % which)
-            else:
-                ctx.violation("distributed-differs-from-local:" + which, case, observed=repr(ro)[:300], expected=repr(lo)[:300],
-                              what="exception classes / selective catching / result shapes: the two-peer run differs from the one-process run (%s)" % which)
+            runs.append((root, mode, lo, ro))
+    # the same trees through the model: local evaluation, and the machine with the crossing table of the configuration in force
+    outs = None
+    if model:
+        outs = model.batch([[20 * size_of(root) + 50, depth_of(root) + 2, tree2_sx(root), DEFAULT_TABLE if mode == "default" else []] for root, mode, lo, ro in runs])
+    for i, (root, mode, lo, ro) in enumerate(runs):
+        predicted = None
+        if outs is not None:
+            ctx.model_traces += 1
+            llog, lout, mlog, mres, left = outs[i]
+            ids = lambda log: [x for x in log if not isinstance(x, tuple)]
+            if llog != ids(lo[1]) or model_outcome2(lout) != outcome2_sx(lo[0]):
+                ctx.tie_broken("correspondence:local-semantics", "tree2 %s model eval %s %s python %s %s" % (tree2_sx(root), llog, lout, ids(lo[1]), lo[0]))
+            predicted = (len(mres) == 1 and left == 0 and mlog == ids(ro[1]) and model_outcome2(mres[0]) == outcome2_sx(ro[0]))
+            if predicted:
+                ctx.count("exceptions:machine-predicts-the-two-peer-run:" + mode)
+        if ro == lo:
+            if predicted is False:
+                ctx.tie_broken("correspondence:machine", "tree2 %s mode %s machine %s %s python %s %s" % (tree2_sx(root), mode, mlog, mres, ids(ro[1]), ro[0]))
+            continue
+        case = {"tree2": root, "mode": mode}
+        which = "result" if ro[0] != lo[0] else ("invocations-or-catches" if ro[1] != lo[1] else "callee-kept-objects")
+        # the known deviation is exactly the one the model predicts from the default table (a user-defined class replaced by a stand-in
+        # that is an Exception): anything else - also on a tree with user-defined classes - is a different violation
+        if mode == "default" and has_custom(root) and predicted is not False and which != "callee-kept-objects":
+            ctx.violation("custom-exception-class-lost:default-config", case, observed=repr(ro)[:300], expected=repr(lo)[:300],
+                          what="a user-defined exception class raised on one peer is not caught by `except <its base class>` on the other under the default configuration (%s differ)" % which)
+        else:
+            ctx.violation("distributed-differs-from-local:" + which, case, observed=repr(ro)[:300], expected=repr(lo)[:300],
+                          what="exception classes / selective catching / result shapes: the two-peer run differs from the one-process run (%s)%s" % (which, "" if predicted is not False else "; nor is it what the model predicts for this configuration"))
 
 def run(ctx):
     model = C.Model("calltree"); model = model if model.available() else None
@@ -375,14 +427,14 @@ def run(ctx):
             bad = [(a, b) for a, b in zip(lw.shapes, rw.shapes) if a != b][:1]
             ctx.violation("argument-shape-differs", case, observed=repr(bad)[:300], expected="equal", what="a callee saw different arguments (value, reference content or keywords) than in the local run")
         if model:
-            mcases.append([20 * size_of(root) + 50, depth_of(root) + 2, tree_sx(root)]); meta.append((root, lo, lw))
-    exception_phase(ctx, 150 if ctx.quick else 4000)
+            mcases.append([20 * size_of(root) + 50, depth_of(root) + 2, tree_sx(root), []]); meta.append((root, lo, lw))
+    exception_phase(ctx, 150 if ctx.quick else 4000, model)
     if model and mcases:
         outs = model.batch(mcases)
         for (root, lo, lw), m in zip(meta, outs):
             ctx.model_traces += 1
             llog, lout, mlog, mres, left = m
-            exp = [0, lo[1]] if lo[0] == "value" else [1, lo[2][0]]
+            exp = [0, lo[1]] if lo[0] == "value" else [1, lo[2][0], MRO["ValueError"]]
             if llog != lw.log or lout != exp:
                 ctx.tie_broken("correspondence:local-semantics", "tree %s model eval %s %s python %s %s" % (tree_sx(root), llog, lout, lw.log, exp))
             if mlog != lw.log or mres != [exp] or left != 0:
